@@ -428,6 +428,13 @@ fn check_rendered(ctx: &mut Ctx, sc: &Scenario, e: &serde_saphyr::Error, radius:
             let l = loc.line() as usize;
             let col = loc.column() as usize;
             if windows.is_empty() {
+                // the reader's ring always holds the last 3072 bytes read, so a line that starts within the
+                // last 3000 bytes of the whole input cannot have been evicted
+                let tail_start: usize = lines.iter().take(l.saturating_sub(1)).map(|x| x.len() + 1).sum();
+                let in_ring_for_sure = entry == "reader" && l <= lines.len() && sc.text.len().saturating_sub(tail_start) < 3000 && !lone_cr;
+                if in_ring_for_sure && !lines[l - 1].is_empty() {
+                    ctx.fail("no-snippet-from-reader-window", format!("[{}] reader input of {} bytes: the error line {l} starts {} bytes before the end, yet no source window was rendered ({fname}): {:?}", sc.family, sc.text.len(), sc.text.len() - tail_start, rendered.chars().take(200).collect::<String>()), replay.clone());
+                }
                 if entry == "str" && l <= lines.len() {
                     ctx.fail(if lone_cr { "no-snippet:lone-cr-input" } else { "no-snippet" }, format!("[{}] no source window rendered for an error at line {l} column {col} of a {}-line input ({fname}): {rendered:?}", sc.family, lines.len()), replay.clone());
                 }
@@ -713,6 +720,18 @@ pub fn run(ctx: &mut Ctx) {
 
     for (t, fam) in FIXED {
         scenario(ctx, &Scenario { text: t, target: Target::MapI32, family: fam });
+    }
+    // large inputs: the reader's recent-bytes ring has wrapped many times when the error is reached
+    for (lines, width, bad_at) in [(1500usize, 8usize, 1490usize), (300, 60, 297), (120, 200, 118), (2500, 3, 2499)] {
+        let mut t = String::new();
+        for i in 0..lines {
+            if i == bad_at {
+                t.push_str(&format!("bad{i}: oops\n"));
+            } else {
+                t.push_str(&format!("k{i}: {}\n", "7".repeat(1 + (i * 7 + width) % width.max(2))));
+            }
+        }
+        scenario(ctx, &Scenario { text: &t, target: Target::MapI32, family: "large-reader-input" });
     }
     let n = if ctx.quick() { 60 } else { 700 };
     for (t, target, fam) in gen_scenarios(&mut rng, n) {
